@@ -238,6 +238,20 @@ def run(ctx):
                     viol(f'a module parameter with default ss.constant(v=ss.days(5)) overridden by {spec} in a {unit}/{dt} module yields {np.unique(got)[:3]} steps; {spec} is {want} steps', dict(probe='tp-override', unit=unit, dt=dt, spec=spec))
     except Exception as E:
         viol(f'overriding a time-wrapped default raised {type(E).__name__}: {E}', dict(probe='tp-override'))
+    # a module on its OWN step: the variates of its time-wrapped distributions are converted with the module's step, not the sim's
+    try:
+        for sim_kw, mod_kw in ((dict(unit='year', dt=1.0), dict(dt=0.25)), (dict(unit='day', dt=2.0, start='2000-01-01'), dict(unit='day', dt=1.0)), (dict(unit='year', dt=0.5), dict(unit='year', dt=2.0))):
+            sx = ss.Sim(n_agents=300, dur=4 * sim_kw['dt'], verbose=0, networks=ss.RandomNet(), diseases=ss.SIS(dur_inf=ss.lognorm_ex(mean=ss.dur(10), std=ss.dur(2)), **mod_kw), **sim_kw); sx.init()
+            mod_ = sx.diseases.sis; d_ = mod_.pars.dur_inf
+            sp = ss.Sim(n_agents=300, dur=4 * sim_kw['dt'], verbose=0, networks=ss.RandomNet(), diseases=ss.SIS(dur_inf=ss.lognorm_ex(mean=10, std=2), **mod_kw), **sim_kw); sp.init()
+            vt = np.asarray(d_.rvs(sx.people.auids), dtype=float); vp = np.asarray(sp.diseases.sis.pars.dur_inf.rvs(sp.people.auids), dtype=float)
+            want = 1.0 / float(mod_.t.dt)      # ss.dur(10) without a unit = 10 module units = 10 / dt module steps
+            ctx.count(('tp-own-step', repr(sim_kw), repr(mod_kw)), nontrivial=True); ctx.dist('time-wrapped parameters of a module on its own step')
+            ratio = float(np.median(vt / vp))
+            if abs(ratio - want) > 1e-6 * want:
+                viol(f'SIS({mod_kw}) in a sim with {sim_kw}: lognorm_ex(mean=ss.dur(10)) yields variates {ratio:.6f} x the plain ones; the module step is {float(mod_.t.dt)} so the factor is {want:.6f}', dict(probe='tp-own-step', sim=sim_kw, module=mod_kw))
+    except Exception as E:
+        viol(f'time-wrapped distribution of a module on its own step raised {type(E).__name__}: {E}', dict(probe='tp-own-step'))
     # a time-wrapped callable probability is evaluated afresh at every call
     try:
         s3 = ss.Sim(n_agents=4000, dur=3, verbose=0, diseases=ss.SIS()); s3.init(); mod3 = s3.diseases.sis
@@ -265,6 +279,21 @@ def run(ctx):
                 viol(f'bernoulli(p={wrap} with entries 0, 1, 0.4): agents with p = 1 selected with frequency {out[pvec == 1.0].mean():.3f}, agents with p = 0 with frequency {out[pvec == 0.0].mean():.3f}', dict(probe='tp-01', wrap=wrap))
     except Exception as E:
         viol(f'bernoulli with time-wrapped per-agent probabilities raised {type(E).__name__}: {E}', dict(probe='tp-01'))
+    # per-agent rates converted to probabilities (rate_prob), including rates above 1 per unit: the frequency is 1 - exp(-rate x dt) as on the scalar path
+    try:
+        s5 = ss.Sim(n_agents=6000, dur=2, verbose=0, diseases=ss.SIS()); s5.init(); mod5 = s5.diseases.sis; au5 = s5.people.auids
+        rates = np.tile(np.array([0.3, 1.0, 1.5, 3.0]), len(au5) // 4 + 1)[:len(au5)]
+        for wrap in ('array', 'callable'):
+            pv = ss.rate_prob(rates.copy(), parent_dt=1.0, parent_unit='year').init() if wrap == 'array' else ss.rate_prob((lambda self, sim, uids: rates[:len(uids)].copy()), parent_dt=1.0, parent_unit='year').init(update_values=False)
+            d = ss.bernoulli(p=pv); d.init(trace='c05_rp', seed=rng.randrange(1, 10**6), sim=s5, module=mod5, force=True)
+            out = np.asarray(d.rvs(au5), dtype=bool)
+            ctx.count(('rate-prob', wrap), nontrivial=True); ctx.dist('per-agent rate_prob probabilities')
+            for r in (0.3, 1.0, 1.5, 3.0):
+                f = float(out[rates == r].mean()); want = 1 - np.exp(-r); sd = np.sqrt(want * (1 - want) / np.count_nonzero(rates == r))
+                if abs(f - want) > 6 * sd:
+                    viol(f'bernoulli(p=rate_prob {wrap} with rates 0.3, 1, 1.5, 3 per year, dt = 1 year): agents with rate {r} selected with frequency {f:.4f}; 1 - exp(-rate) = {want:.4f}', dict(probe='rate-prob', wrap=wrap, rate=r)); break
+    except Exception as E:
+        viol(f'bernoulli with per-agent rate_prob probabilities raised {type(E).__name__}: {E}', dict(probe='rate-prob'))
     # ---------------------------------------------------------------- discrete choice (NumPy's cdf / searchsorted, modelled in L1_Choice)
     cterms, cmeta, pterms, pmeta = [], [], [], []
     for rep in range(ctx.n(6, 30)):
